@@ -32,7 +32,7 @@ impl Minimizer {
         let mut out = Vec::new();
         for f in &spec.faults {
             if let Some(pos) = kept.iter().position(|&i| i == f.at) {
-                out.push(Fault { at: pos, nth: f.nth });
+                out.push(Fault { at: pos, nth: f.nth, site: f.site });
             }
         }
         out
